@@ -14,7 +14,8 @@ if "--wt" in sys.argv:
 src = f"/tmp/seeds/{prop}/{n}"
 meta = json.load(open(f"{src}/meta.json"))
 loc = " ".join(str(meta.get(k, "")) for k in ("demo_location", "demo", "demonstration")) + " " + " ".join(meta.get("commands_run", []))
-m = re.search(r"(?:copy|drop|place|put)\s+(?:\S*demo\S*\s+)?(?:to|into|as|at)\s+(\S+\.rs)", loc)
+append = re.search(r"[Aa]ppend\w*\s.*?(?:end|END) of (\S+\.rs)", loc)
+m = re.search(r"(?:copy|drop|place|put)\s+(?:\S*demo\S*\s+)?(?:to|into|as|at)\s+(\S+\.rs)", loc) if not append else append
 if not m:
     m = re.search(r"(\S+/tests/\S+\.rs)", loc)
 dest = m.group(1).rstrip(";,.)`") if m else None
@@ -24,8 +25,20 @@ dest = dest.replace(wt + "/", "")
 crate = dest.split("/")[0]
 pkg = {"autonomi": "autonomi"}.get(crate, crate)
 testname = os.path.basename(dest)[:-3]
+libfilter = None
+if append:
+    mf = re.search(r"--lib\s+([A-Za-z0-9_:]+)", loc)
+    libfilter = mf.group(1) if mf else ""
 env = dict(os.environ, CARGO_TARGET_DIR=f"{wt}/target", CARGO_NET_OFFLINE="true")
-demo_file = [f for f in os.listdir(src) if f.endswith(".rs")][0]
+demo_file = "demo_test.rs" if os.path.exists(f"{src}/demo_test.rs") else [f for f in os.listdir(src) if f.endswith(".rs")][0]
+demo_cmd = f"cargo test -p {pkg} --offline --test {testname}" if not append else f"cargo test -p {pkg} --offline --lib {libfilter}"
+
+def install_demo():
+    if append:
+        open(f"{wt}/{dest}", "a").write("\n" + open(f"{src}/{demo_file}").read())
+    else:
+        os.makedirs(os.path.dirname(f"{wt}/{dest}"), exist_ok=True)
+        shutil.copy(f"{src}/{demo_file}", f"{wt}/{dest}")
 
 def sh(cmd):
     p = subprocess.run(cmd, shell=True, cwd=wt, env=env, capture_output=True, text=True)
@@ -39,9 +52,10 @@ def clean():
 
 res = {}
 clean()
-os.makedirs(os.path.dirname(f"{wt}/{dest}"), exist_ok=True); shutil.copy(f"{src}/{demo_file}", f"{wt}/{dest}")
-rc, out = sh(f"cargo test -p {pkg} --offline --test {testname}")
+install_demo()
+rc, out = sh(demo_cmd)
 res["demo_without_change"] = {"rc": rc, "tests": tests(out)}
+clean()
 rc0, out0 = sh(f"cargo test -p {pkg} --offline --lib")
 res["lib_tests_without_change"] = tests(out0)
 rc, out = sh(f"git apply {src}/patch.diff")
@@ -50,7 +64,8 @@ rc, out = sh(f"cargo check -p {pkg} --offline")
 res["compiles_with_change"] = rc == 0
 rc1, out1 = sh(f"cargo test -p {pkg} --offline --lib")
 res["lib_tests_with_change"] = tests(out1)
-rc, out = sh(f"cargo test -p {pkg} --offline --test {testname}")
+install_demo()
+rc, out = sh(demo_cmd)
 res["demo_with_change"] = {"rc": rc, "tests": tests(out)}
 clean()
 ok = (res["demo_without_change"]["rc"] == 0 and res["patch_applies"] and res["compiles_with_change"]
@@ -63,10 +78,10 @@ if ok:
     shutil.copy(f"{src}/patch.diff", out_dir)
     shutil.copy(f"{src}/{demo_file}", out_dir)
     meta2 = {"id": sid, "breaks_property": prop, "summary": meta.get("summary"), "needs_to_manifest": meta.get("needs_to_manifest"),
-             "files_changed": meta.get("files_changed"), "demo": {"file": demo_file, "install_as": dest, "run": f"cargo test -p {pkg} --offline --test {testname}"},
+             "files_changed": meta.get("files_changed"), "demo": {"file": demo_file, "install": ("append to the end of " if append else "copy to ") + dest, "run": demo_cmd},
              "confirmed_by_builder": {k: v for k, v in res.items()},
-             "what_was_run": [f"(scratch worktree {wt}) cargo test -p {pkg} --offline --test {testname}  [without change: pass]",
+             "what_was_run": [f"(scratch worktree {wt}) {demo_cmd}  [without change: pass]",
                               f"git apply patch.diff; cargo check -p {pkg} --offline; cargo test -p {pkg} --offline --lib  [same results as without the change]",
-                              f"cargo test -p {pkg} --offline --test {testname}  [with change: FAILS]"]}
+                              f"{demo_cmd}  [with change: FAILS]"]}
     json.dump(meta2, open(f"{out_dir}/meta.json", "w"), indent=1)
 print(sid, "CONFIRMED" if ok else "NOT CONFIRMED", json.dumps({k: (v if not isinstance(v, list) else len(v)) for k, v in res.items()}))
